@@ -626,6 +626,28 @@ def make(rng, cases, n, max_prog=90):
             first = next(i for i, op in enumerate(new) if op[0].startswith("O"))
             new.insert(first, ("HHoldHandles",))
         added = 0
+        pre_obs = []
+        if not any(v["chans"] for v in sh.E.values()) and rng.random() < 0.6:
+            # programs about blueprints only: an element around one of them (a blueprint that has its sample rate)
+            cand = [r for r, v in sh.B.items() if v["names"] and v.get("sr")]
+            if cand:
+                r = rng.choice(cand)
+                e = sh.fresh("E")
+                w = [("ENew", e), ("EAddBp", e, rng.choice([1, 2, "A"]), r)]
+                for op in w:
+                    sh.apply(op)
+                new += w
+                obs = obs + [("OEDescr", e)] + ([("OEArrays", e, False)] if safe else [])
+        if any(v["chans"] for v in sh.E.values()) and not any(v["pos"] for v in sh.S.values()) and safe and rng.random() < 0.6:
+            # programs about blueprints / elements only: put a sequence around one of their elements first (observed
+            # once), so that the sequence-level kinds - handles, faults, exports - apply to them as well
+            w = tail(rng, sh, pre_obs, force="wrap_seq")
+            if w:
+                for op in w:
+                    if op[0] in ("SNew", "SSetSR", "SAddElement", "SSetAmp"):
+                        sh.apply(op)
+                new += w
+                obs = obs + [o for o in pre_obs if o not in obs]
         has_s = any(v["pos"] for v in sh.S.values())
         has_e = any(v["chans"] for v in sh.E.values())
         has_b = any(v["names"] for v in sh.B.values())
